@@ -11,10 +11,33 @@ def fresh(x):
     return (x + "\x00")[:-1] if isinstance(x, str) else x
 
 
+def mk_set(elems, hist=0):
+    """A set with a generated history: equal sets may enumerate their elements in different orders (the order depends on the insertion order when hash
+    values collide and on the size of the hash table, which never shrinks).  hist 0: set(list); 1: elements inserted in reverse order; 2: a set that was
+    much larger earlier (large table); 3: both."""
+    elems = list(elems)
+    if hist & 1:
+        elems = elems[::-1]
+    if hist & 2:
+        s = set("\x00dummy%d" % i for i in range(70))
+        for x in elems:
+            s.add(x)
+        for i in range(70):
+            s.discard("\x00dummy%d" % i)
+        return s
+    s = set()
+    for x in elems:
+        s.add(x)
+    return s
+
+
 def mk_dfa(spec, check=True):
     delta = {}
     for p, a, q in spec["d"]:
         delta[fresh(p), fresh(a)] = fresh(q)
+    h = spec.get("set_hist", 0)
+    if h:
+        return DFA(mk_set(spec["Q"], h), mk_set(spec["S"], h), delta, spec["q0"], mk_set(spec["F"], h), check_validity=check)
     return DFA(set(spec["Q"]), set(spec["S"]), delta, spec["q0"], set(spec["F"]), check_validity=check)
 
 
